@@ -1,7 +1,8 @@
 """C38 -- config file reload fires once for the final content despite lost fs events.
 
 1. TLC model-checks the design model ReloadWatch.tla (file operations with delivered / dropped /
-   duplicated notifications -- also inside the window of a running callback --, event- and
+   duplicated notifications -- also inside the window of a running callback --, an event watcher that
+   breaks for good, event- and
    tick-driven reconciliation, debounce, a callback that reads the file itself and accepts or
    rejects what it read): safety (never a call for the fingerprint evaluated last) and, under weak
    fairness of the loop's steps and with no state constraint, liveness (eventually always the
@@ -76,6 +77,7 @@ def run(ctx):
     wrong = {"trust": "trusts the fingerprint of the last reconciliation at expiry",
              "rearm": "re-arms after a moved callback but keeps the evaluation",
              "accept": "records a fingerprint as evaluated only when the callback accepts",
+             "blind": "skips the periodic reconciliation while no event watcher can be created",
              "both": "the loop as designed, file changed and restored inside one callback (residual)"}
     for name, what in wrong.items():
         t = ctx.tlc("ReloadWatch", "ReloadWatch_%s.cfg" % name, allow_violation=True, count=False)
@@ -88,7 +90,7 @@ def run(ctx):
     haz = ctx.tlc("ReloadWatch", "ReloadWatch_haz3.cfg", count=False, timeout=1800).printed_json("SCEN")
     nhaz = len(haz)
     rnd.shuffle(haz)
-    haz = haz[:ctx.pick(50, 504)]
+    haz = haz[:ctx.pick(40, 504)]
     aimed = []
     for name in ("rearm", "accept"):
         aimed += ctx.tlc("ReloadWatch", "ReloadWatch_haz%s.cfg" % name, count=False).printed_json("SCEN")
@@ -99,13 +101,16 @@ def run(ctx):
               and len({x["c"] for x in s["steps"] if x["a"] in ("op", "init")}) > 1]
     nrev = len(revert)
     rnd.shuffle(revert)
-    revert = revert[:ctx.pick(60, 400)]
+    revert = revert[:ctx.pick(50, 400)]
     aimed += revert
+    blind = ctx.tlc("ReloadWatch", "ReloadWatch_hazblind.cfg", count=False, timeout=1800).printed_json("SCEN")
+    rnd.shuffle(blind)
+    aimed += blind[:ctx.pick(30, 400)]       # the watcher breaks for good, then the file changes
     residual = ctx.tlc("ReloadWatch", "ReloadWatch_hazboth.cfg", count=False).printed_json("SCEN")
     for s in residual:
         s["residual"] = True
     sim = ctx.tlc("ReloadWatch", ctx.pick("ReloadWatch_scen3.cfg", "ReloadWatch_scen4.cfg"), workers=1, count=False,
-                  simulate=ctx.pick(200, 2500), depth=24, timeout=1800).printed_json("SCEN")
+                  simulate=ctx.pick(170, 2500), depth=24, timeout=1800).printed_json("SCEN")
     scens = haz + aimed + residual + sim
     rnd.shuffle(scens)
     ctx.log("scenarios: %d of %d stale-fingerprint hazards + %d aimed (hazards of the rearm/accept designs: file "
@@ -128,7 +133,11 @@ def run(ctx):
         bad = rj["bad"] or {}
         ev = bad.get("ev")
         ops = [x for x in rj["run"] if x.get("ev") == "op.begin"]
-        if ev == "stalled":
+        if ev == "stalled" and any(x.get("ev") == "break" for x in rj["run"]):
+            key = "no-reconciliation-after-watcher-loss"
+            desc = ("after the event watcher broke for good the loop stopped reconciling: the file change that followed "
+                    "was not picked up within 20 s")
+        elif ev == "stalled":
             key, desc = "no-rest", "the loop did not come to rest within 20 s"
         elif ev == "rw.callback":
             prev = [x for x in rj["run"][:rj["bad_index"]] if x.get("ev") == "rw.callback"]
